@@ -8,7 +8,7 @@ From Coq Require Import List ZArith NArith Bool Lia.
 From RecordUpdate Require Import RecordSet.
 From PC.Base Require Import Assoc.
 From PC.Sup Require Import Model Monitors Tactics Sim ObsFacts Effects RelCore
-  LemC04 LemC04i LemC04s LemC04t LemC04n LemC04g LemC04o LemC04c RelC04.
+  LemC04 LemC04i LemC04s LemC04t LemC04n LemC04g LemC04o LemC04c LemC04l RelC04.
 Import ListNotations RecordSetNotations.
 
 (* ---- lists ------------------------------------------------------------------------------------------ *)
@@ -43,6 +43,91 @@ Proof. unfold gflush. destruct (memN th (g_wp g)); cbn -[memN removeN rem1]; mat
 Lemma gflush_wp o th g :
   g_wp (gflush o th g) = if memN th (g_wp g) then removeN th (g_wp g) else g_wp g.
 Proof. unfold gflush. destruct (memN th (g_wp g)); cbn -[memN removeN rem1]; match goal with |- context[if ?b then _ else _] => destruct b end; reflexivity. Qed.
+
+
+(* ---- latches: an ended instance has released everything a dependent can wait on ----------------------- *)
+Record R6 (s : sys) : Prop := mkR6 {
+  r6_done : forall j y, get j (insts s) = Some y -> l_done y = true -> released y;
+  r6_own : forall th i x, get th (thinst s) = Some i -> get i (insts s) = Some x -> inendf (pc x) = true ->
+           pend (get_thread s th) = Some (REndEarly i) \/ released x;
+  r6_spe : forall th i, spc (get_thread s th) = SPendE i ->
+           exists x, get i (insts s) = Some x /\ (pend (get_thread s th) = Some (REndEarly i) \/ released x)
+}.
+
+Lemma R6_init cs ord : R6 (init cs ord).
+Proof. constructor; cbn; try discriminate. Qed.
+
+Lemma R6_flush s th : R6 s -> R6 (flush th s).
+Proof.
+  intros [D O P]. destruct (flush_spec th s) as (F1 & F2 & F3 & _).
+  assert (Hback : forall j x', get j (insts (flush th s)) = Some x' -> exists x, get j (insts s) = Some x /\
+            pc x' = pc x /\ l_done x' = l_done x /\ (released x -> released x') /\
+            (pend (get_thread s th) = Some (REndEarly j) -> released x')).
+  { intros j x' Hx'. specialize (F2 j). destruct (get j (insts s)) as [x|] eqn:Ex; [|congruence].
+    destruct (flush_latch th s j x Ex) as (x2 & E2 & ?). assert (x2 = x') by congruence. subst. eauto. }
+  assert (Hthr : forall t i x x', (pend (get_thread s t) = Some (REndEarly i) \/ released x) ->
+            (released x -> released x') -> (pend (get_thread s th) = Some (REndEarly i) -> released x') ->
+            pend (get_thread (flush th s) t) = Some (REndEarly i) \/ released x').
+  { intros t i x x' [Hd|Hd] Hm Hf; [|right; auto]. rewrite F3. destruct (N.eqb_spec th t); [subst; right; auto|now left]. }
+  constructor.
+  - intros j y' Hy' Hd. destruct (Hback _ _ Hy') as (y & Hy & _ & Ed & Hm & _). apply Hm, (D j y Hy). congruence.
+  - rewrite F1. intros t i x' Ht Hx' Hi. destruct (Hback _ _ Hx') as (x & Hx & Ep & _ & Hm & Hf).
+    rewrite Ep in Hi. eapply Hthr; eauto.
+  - intros t i Hs. assert (Hs0 : spc (get_thread s t) = SPendE i).
+    { rewrite F3 in Hs. destruct (N.eqb_spec th t) as [->|Hne]; exact Hs. }
+    destruct (P t i Hs0) as (x & Hx & Hd). destruct (flush_latch th s i x Hx) as (x' & Hx' & _ & _ & Hm & Hf).
+    exists x'. split; [exact Hx'|]. eapply Hthr; eauto.
+Qed.
+
+Lemma g_procend s th i s0 s' : step_core s th (EProcEnd i s0) = Some s' -> exists x, get i (insts s) = Some x.
+Proof. intros H. cbn in H. unfold step_procend in H. destruct (get i (insts s)); [eauto|discriminate]. Qed.
+
+Lemma R6_core s th e s' : R6 s ->
+  (forall t1 t2 i, get t1 (thinst s) = Some i -> get t2 (thinst s) = Some i -> t1 = t2) ->
+  (forall t i, get t (thinst s) = Some i -> exists x, get i (insts s) = Some x) ->
+  (forall j x, get j (insts s) = Some x -> (forall t, get t (thinst s) <> Some j) -> inendf (pc x) = false) ->
+  pend (get_thread s th) = None -> step_core s th e = Some s' -> R6 s'.
+Proof.
+  intros [D O P] Hinj Hthi Hunb Hp H.
+  pose proof (core_latch _ _ _ _ H) as HL. pose proof (core_spe _ _ _ _ H) as HS. pose proof (core_none _ _ _ _ H) as HN.
+  destruct (core_scal _ _ _ _ H) as (_ & _ & _ & Sthi & Sthr).
+  assert (Hrel : forall x x', (l_ready x = true -> l_ready x' = true) -> (l_runctx x = true -> l_runctx x' = true) ->
+            (l_logready x <> None -> l_logready x' <> None) -> released x -> released x').
+  { unfold released. intros x x' A B C (R1 & R2 & R3). auto. }
+  assert (Hnop : forall t i, pend (get_thread s t) = Some (REndEarly i) -> t <> th) by (intros t i Hq ->; congruence).
+  constructor.
+  - intros j y' Hy' Hd. destruct (get j (insts s)) as [y|] eqn:Hy.
+    + destruct (HL j y Hy) as (y2 & E2 & A & B & C & Dn & _). assert (y2 = y') by congruence. subst y2.
+      apply (Hrel y y' A B C). destruct (Dn Hd) as [Hd0|[Hsp|(Ht & Hi)]].
+      * now apply (D j y).
+      * destruct (P th j Hsp) as (y0 & Hy0 & [Hq|Hq]); [congruence|]. congruence.
+      * destruct (O th j y Ht Hy Hi) as [Hq|Hq]; [congruence|exact Hq].
+    + destruct (is_newinst_dec e j) as [(n & ->)|Hno]; [|rewrite (HN j Hy Hno) in Hy'; discriminate].
+      destruct (newinst_eff _ _ _ _ _ H) as (_ & c & Hget). rewrite Hget, N.eqb_refl in Hy'. injection Hy' as <-. discriminate Hd.
+  - intros t i x' Ht Hx' Hi.
+    assert (Hex : exists x, get i (insts s) = Some x).
+    { destruct (get i (insts s)) as [x|] eqn:Hx; [eauto|exfalso].
+      destruct (is_newinst_dec e i) as [(n & ->)|Hno]; [|rewrite (HN i Hx Hno) in Hx'; discriminate].
+      rewrite Sthi in Ht. destruct (Hthi _ _ Ht) as (x0 & Hx0). congruence. }
+    destruct Hex as (x & Hx). destruct (HL i x Hx) as (x2 & E2 & A & B & C & _ & Dn). assert (x2 = x') by congruence. subst x2.
+    assert (Hold : get t (thinst s) = Some i \/ (e = EBegin i /\ t = th /\ forall t0, get t0 (thinst s) <> Some i)).
+    { rewrite Sthi in Ht. destruct e; auto. rewrite get_set in Ht. destruct (N.eqb_spec th t); [|auto].
+      injection Ht as <-. subst t. right. destruct (g_begin _ _ _ _ H) as (x0 & _ & _ & _ & Hnb). repeat split; auto.
+      intros t0 Ht0. eapply Hnb; eauto. }
+    destruct (Dn Hi) as [Hi0|(Hth & Hq)].
+    + destruct Hold as [Ht0|(-> & -> & Hnb)]; [|rewrite (Hunb i x Hx Hnb) in Hi0; discriminate].
+      destruct (O t i x Ht0 Hx Hi0) as [Hq|Hq]; [|right; now apply (Hrel x x' A B C)].
+      left. rewrite (Sthr t (Hnop _ _ Hq)). exact Hq.
+    + left. destruct Hold as [Ht0|(_ & -> & _)]; [|exact Hq]. now rewrite (Hinj _ _ _ Ht0 Hth).
+  - intros t i Hs. destruct (N.eqb_spec t th) as [->|Hne].
+    + destruct (HS i Hs) as [Hs0|(Hq & s0 & ->)].
+      * destruct (P th i Hs0) as (x & Hx & [Hq|Hq]); [congruence|].
+        destruct (HL i x Hx) as (x' & Hx' & A & B & C & _). exists x'. split; [exact Hx'|]. right. now apply (Hrel x x' A B C).
+      * destruct (g_procend _ _ _ _ _ H) as (x & Hx). destruct (HL i x Hx) as (x' & Hx' & _). exists x'. auto.
+    + rewrite (Sthr t Hne) in *. destruct (P t i Hs) as (x & Hx & Hd).
+      destruct (HL i x Hx) as (x' & Hx' & A & B & C & _). exists x'. split; [exact Hx'|].
+      destruct Hd as [Hd|Hd]; [now left|right; now apply (Hrel x x' A B C)].
+Qed.
 
 Section En.
 Context (cs : amap pconf).
@@ -147,22 +232,30 @@ Lemma R5_init ord : R5 (init cs ord) ghost0.
 Proof. constructor; cbn; [constructor|tauto|discriminate]. Qed.
 
 (* every state reached by an accepted history is related to some observer and ghost *)
-Lemma R45_run : forall evs s o g s', R4 cs s o g -> R5 s g -> accept s evs = Some s' ->
-  exists o' g', R4 cs s' o' g' /\ R5 s' g'.
+Lemma R456_run : forall evs s o g s', R4 cs s o g -> R5 s g -> R6 s -> accept s evs = Some s' ->
+  exists o' g', R4 cs s' o' g' /\ R5 s' g' /\ R6 s'.
 Proof.
-  induction evs as [|[th e] r IH]; intros s o g s' HR H5 Hacc; cbn in Hacc.
+  induction evs as [|[th e] r IH]; intros s o g s' HR H5 H6 Hacc; cbn in Hacc.
   - injection Hacc as <-. eauto.
   - destruct (step s (th, e)) as [s1|] eqn:Es; [|discriminate].
     destruct (R4_step cs _ _ _ _ _ HR Es) as (HR1 & _).
     destruct (R4_flush cs _ _ _ th HR) as (HR0 & Hp0).
-    pose proof (R5_flush _ _ _ th HR H5) as H50.
+    pose proof (R5_flush _ _ _ th HR H5) as H50. pose proof (R6_flush _ th H6) as H60.
     unfold step in Es. cbn [fst snd] in Es.
     pose proof (R5_core _ _ _ _ _ _ HR0 H50 Hp0 Es) as H51.
-    exact (IH _ _ _ _ HR1 H51 Hacc).
+    assert (H61 : R6 s1).
+    { eapply R6_core; eauto.
+      - apply (r_inj _ _ _ _ HR0).
+      - apply (r_thi _ _ _ _ HR0).
+      - intros j x Hx Hnb. destruct (rc_inst _ _ _ (r_core _ _ _ _ HR0) j x Hx) as (xo & Hxo & _).
+        destruct (r_inst _ _ _ _ HR0 j x xo Hx Hxo) as (_ & _ & _ & Dd & _).
+        destruct (inendf (pc x)) eqn:Ei; [|reflexivity]. exfalso.
+        destruct Dd as (t & Ht); [destruct (pc x); cbn in *; discriminate|]. eapply Hnb; eauto. }
+    exact (IH _ _ _ _ HR1 H51 H61 Hacc).
 Qed.
 
-Lemma reach ord evs s : accept (init cs ord) evs = Some s -> exists o g, R4 cs s o g /\ R5 s g.
-Proof. intros H. eapply R45_run; [apply R4_init|apply R5_init|exact H]. Qed.
+Lemma reach ord evs s : accept (init cs ord) evs = Some s -> exists o g, R4 cs s o g /\ R5 s g /\ R6 s.
+Proof. intros H. eapply R456_run; [apply R4_init|apply R5_init|apply R6_init|exact H]. Qed.
 End En.
 
 (* ---- 1. Run() is not blocked ------------------------------------------------------------------------ *)
@@ -198,7 +291,7 @@ Theorem run_can_return : forall cs ord evs s th,
   apc (get_thread s th) = ARunWait -> wg_quiet s ->
   exists s', step s (th, ERunReturn (proj_code s)) = Some s'.
 Proof.
-  intros cs ord evs s th Hacc Hapc [Q1 Q2]. destruct (reach cs ord evs s Hacc) as (o & g & HR & [N1 N2 N3]).
+  intros cs ord evs s th Hacc Hapc [Q1 Q2]. destruct (reach cs ord evs s Hacc) as (o & g & HR & [N1 N2 N3] & _).
   assert (Hsp : g_sp g = []).
   { destruct (g_sp g) as [|i l] eqn:E; [reflexivity|]. exfalso.
     destruct (N2 i) as [(c & Hc)|(t & x & Ht & Hx & Hd)]; [now left|exact (Q1 _ _ Hc)|].
@@ -218,4 +311,31 @@ Proof.
   { rewrite F6. destruct (pk (pend (get_thread s th))) eqn:E; try reflexivity. exfalso. eapply Hnpc; eauto. }
   unfold step. cbn [fst snd]. unfold step_core, step_api. rewrite Hapc0, Hwg0, Hpc0, Z.eqb_refl. cbn. eauto.
 Qed.
-(*STOP*)
+
+(* ---- 2. a waiter is not blocked once its dependency has ended ------------------------------------------ *)
+Lemma released_latch c y : l_done y = true -> released y -> latch_released c y = true.
+Proof.
+  intros Hd (R1 & R2 & R3). destruct c; cbn; auto.
+  - destruct (l_logready y); [reflexivity|congruence].
+  - rewrite R2. apply orb_true_r.
+Qed.
+
+(* The release that the waiting thread itself may still have pending is performed first ([step] = [step_core]
+   after [flush], the model's convention for releases that directly follow a trace point); it cannot hurt:
+   latches only go up. *)
+Theorem waiter_released : forall cs ord evs s th i x k c j todo y,
+  accept (init cs ord) evs = Some s ->
+  get th (thinst s) = Some i -> get i (insts s) = Some x -> pc x = IBlocked k c j todo ->
+  get j (insts s) = Some y -> l_done y = true ->
+  exists ok s', step s (th, EDepDone k ok) = Some s'.
+Proof.
+  intros cs ord evs s th i x k c j todo y Hacc Hth Hx Hpc Hy Hd.
+  destruct (reach cs ord evs s Hacc) as (o & g & _ & _ & H6).
+  destruct (flush_spec th s) as (F1 & _).
+  destruct (flush_latch th s i x Hx) as (x0 & Hx0 & Epc & _).
+  destruct (flush_latch th s j y Hy) as (y0 & Hy0 & _ & Ed & Hm & _).
+  assert (Hrel : latch_released c y0 = true).
+  { apply released_latch; [congruence|]. apply Hm. exact (r6_done _ H6 j y Hy Hd). }
+  exists (wait_result (flush th s) c y0). unfold step. cbn [fst snd]. cbn [step_core]. unfold step_own, own_inst.
+  rewrite F1, Hth, Hx0. cbn. rewrite Epc, Hpc, N.eqb_refl, Hy0, Hrel, eqb_reflx. eauto.
+Qed.
